@@ -203,6 +203,12 @@ pub struct Sink {
 impl Sink {
     /// Tell the watchdog which operation is about to run on the real code.
     pub fn pending(&mut self, op: &str) {
+        // `GMQ_TRACE_PENDING=<file>`: the operation about to run is written out first, so that after an ABORT of the
+        // real code (allocation failure, stack overflow — not catchable by `catch_unwind`) `check` can name the input
+        static TRACE: std::sync::OnceLock<Option<String>> = std::sync::OnceLock::new();
+        if let Some(p) = TRACE.get_or_init(|| std::env::var("GMQ_TRACE_PENDING").ok()) {
+            let _ = std::fs::write(p, op);
+        }
         let w = watch();
         let mut g = w.lock().unwrap_or_else(|e| e.into_inner());
         g.pending = op.to_string();
